@@ -10,7 +10,7 @@ import "sync/atomic"
 // shared location holds a common lock; natively f runs in 8 goroutines under
 // the race detector.
 
-//verif:harness VerifC09_Locks race replayruns=40 quick.maxpaths=20000 thorough.maxpaths=100000 timeout=2400 steps=40000000
+//verif:harness VerifC09_Locks race replayruns=40 poolreuse=lifo quick.maxpaths=20000 thorough.maxpaths=100000 timeout=2400 steps=40000000
 
 func zzC09FS() *zzFS {
 	fsys := newZZFS(map[string]string{
@@ -34,6 +34,7 @@ func VerifC09_Locks() {
 	// 0 never, 1 before every render, 2 before every other render (the
 	// renders in between find the refreshed entry in the cache)
 	touch := zzChoice("touch", 3)
+	failing := zzBool("failing") // failing requests are mixed in with the healthy ones
 	fsys := zzC09FS()
 	vue := NewVue(fsys)
 	tpl := NewFS(fsys)
@@ -66,8 +67,15 @@ func VerifC09_Locks() {
 	concurrent := false
 	var calls atomic.Int64
 	run := func() {
-		if n := calls.Add(1); concurrent && (touch == 1 || (touch == 2 && n%2 == 1)) {
+		n := calls.Add(1)
+		if concurrent && (touch == 1 || (touch == 2 && n%2 == 1)) {
 			fsys.gen.Add(1)
+		}
+		if failing && n%2 == 1 {
+			// another request on the same engine fails half-way through a text run
+			fw := &zzWriter{limit: 1 << 20}
+			ferr := tpl.New().Fill(data).RenderString(contextBackground(), fw, `<p title="t-{{ n }}-{{ n | nosuchfilter }}">SECRET {{ n }} {{ n | nosuchfilter }}</p>`)
+			zzAssert(ferr != nil && len(fw.got) == 0, "C09.crosstalk.failing-request")
 		}
 		got, err := render(vue, tpl)
 		zzAssert(err == nil, "C09.crosstalk.render-error")
